@@ -424,6 +424,12 @@ def regenerate(src_dir, gen_dir):
         try:
             if fdef is None:
                 raise Untranslatable("function not found")
+            for d in fdef.decorator_list:
+                dsrc = ast.unparse(d)
+                if not (dsrc in ("property", "classmethod", "staticmethod") or dsrc.endswith(".setter")):
+                    # a decorator replaces the function by something else (a memo, a wrapper): the body alone is not
+                    # what callers run any more
+                    raise Untranslatable("decorator @%s is outside the translated subset" % dsrc)
             txt = translate(fn, fdef, None, consts.get(fn.cls, {}), getters)
             status[fn.coq_name] = "ok"
         except Untranslatable as e:
